@@ -11,7 +11,9 @@
 EXTENDS Naturals, Sequences, FiniteSets, TLC
 
 ParamKinds == {"src", "src2", "ctxdecl", "ctxregex", "conv", "upd"}
-ResultLists == {<<>>, <<"T">>, <<"T", "error">>, <<"error">>, <<"T", "int">>, <<"T", "error", "error">>, <<"int">>, <<"T", "T">>, <<"error", "T">>}
+\* "localerror": a type named `error` declared in the converter's own package (not the built-in error)
+ResultLists == {<<>>, <<"T">>, <<"T", "error">>, <<"error">>, <<"T", "int">>, <<"T", "error", "error">>, <<"int">>, <<"T", "T">>, <<"error", "T">>,
+                <<"T", "localerror">>, <<"localerror">>, <<"error", "error">>, <<"error", "int">>}
 
 \* ---- operational: the switch of method.Parse, first matching case wins
 RoleOf(use, k, haveSource) ==
@@ -53,4 +55,9 @@ ParamLists(n) == IF n = 0 THEN {<<>>} ELSE ParamLists(n - 1) \cup {Append(a, k) 
 \* a kind may occur once, except plain sources (two parameters cannot share a name)
 WellNamed(ps) == \A i, j \in DOMAIN ps : (i # j /\ ps[i] = ps[j]) => FALSE
 Sigs(n) == {[params |-> ps, results |-> rs, use |-> "method"] : ps \in {q \in ParamLists(n) : WellNamed(q)}, rs \in ResultLists}
+\* custom (extend) functions: the converter interface as a parameter is the converter; a sibling function in the same file
+\* declares `context source` and `context other`, which must not turn this function's plain parameters into contexts
+ExtSigs == {[params |-> ps, results |-> rs, use |-> "extend"] :
+              ps \in {q \in ParamLists(3) : WellNamed(q) /\ \A i \in DOMAIN q : q[i] \in {"src", "src2", "ctxdecl", "conv"}},
+              rs \in {<<>>, <<"T">>, <<"T", "error">>, <<"T", "int">>, <<"T", "localerror">>}}
 =============================================================================
